@@ -6,9 +6,11 @@ Import ListNotations.
 
 (* main 1, aux 1 (1 random element), 1+1 transition constraints, 1+0 assertions, 1 composition column,
    quadratic extension, 1 FRI layer, grinding 1, 2 queries *)
-Definition s0 : shape := mkShape 1 1 1 1 1 1 0 1 2 1 1 2.
+Definition s0 : shape := mkShape 1 1 1 1 1 1 0 1 2 1 1 2 None.
 (* single segment, base field, no FRI layer (remainder only), no grinding *)
-Definition s1 : shape := mkShape 3 0 0 3 0 2 0 2 1 0 0 1.
+Definition s1 : shape := mkShape 3 0 0 3 0 2 0 2 1 0 0 1 None.
+(* Lagrange kernel column: 1 main + 2 aux columns, 2 ordinary random elements, GKR step drawing 3 elements, log2 n = 3 *)
+Definition s2 : shape := mkShape 1 2 2 1 1 1 1 1 1 0 0 1 (Some (3, 3)).
 
 Definition good0 : list event :=
   [EvNew [CtxElems; PubInputs]; EvReseed (TraceCommitment 0); EvDraw 0 2; EvReseed (TraceCommitment 1);
@@ -107,4 +109,27 @@ Example mutant_positions_before_remainder : log_ok false s0
 Proof. reflexivity. Qed.
 (* the seed without the public inputs *)
 Example mutant_seed_without_pub_inputs : log_ok false s0 (EvNew [CtxElems] :: tl good0) = false.
+Proof. reflexivity. Qed.
+
+(* Lagrange-kernel shape: GKR draws first, then the ordinary auxiliary randomness (counter continuing), 3+1 more composition
+   coefficients, 1 more DEEP coefficient *)
+Example prover_s2 : map fst (prover s2) =
+  [EvNew [CtxElems; PubInputs]; EvReseed (TraceCommitment 0); EvDraw 0 1; EvDraw 1 1; EvDraw 2 1; EvDraw 3 1; EvDraw 4 1;
+   EvReseed (TraceCommitment 1);
+   EvDraw 0 1; EvDraw 1 1; EvDraw 2 1; EvDraw 3 1; EvDraw 4 1; EvDraw 5 1; EvDraw 6 1; EvDraw 7 1;
+   EvReseed ConstraintCommitment; EvDraw 0 1; EvReseed HashOodTraceFrame; EvReseed HashOodConstraintEvals;
+   EvDraw 0 1; EvDraw 1 1; EvDraw 2 1; EvDraw 3 1; EvDraw 4 1; EvReseed RemainderCommitment;
+   EvCheckPow PowNonce; EvDrawInts PowNonce 1].
+Proof. reflexivity. Qed.
+
+Definition uses_s2_good : list use :=
+  [UseUnobserved; UseUnobserved; UseGkr; UseGkr; UseGkr; UseAux; UseAux] ++ repeat UseUnobserved 21.
+(* seeded change C04-m2: the verifier takes the ordinary auxiliary randomness BEFORE the GKR randomness: same coin
+   operations, different use of the first draws *)
+Definition uses_s2_swapped : list use :=
+  [UseUnobserved; UseUnobserved; UseAux; UseAux; UseGkr; UseGkr; UseGkr] ++ repeat UseUnobserved 21.
+
+Example log_ok_uses_s2 : log_ok_uses false s2 (map fst (prover s2)) uses_s2_good = true.
+Proof. reflexivity. Qed.
+Example mutant_aux_rand_before_gkr : log_ok_uses false s2 (map fst (prover s2)) uses_s2_swapped = false.
 Proof. reflexivity. Qed.
